@@ -47,5 +47,50 @@ func Pool() [][]N {
 		{Expr(od("defineProperty", This(), Str("g"), Obj("get", Fn("", nil, hc(Str("g"), Un("typeof", Id("n"))), Return(numOr0("n"))), "configurable", Bool(true)))), hc(Str("def"))},
 		// 11 ... and read by another (inside try: the host function called by the getter may panic)
 		{Try([]N{hc(Bin("+", Dot(This(), "g"), Num(1)))}, "e", []N{hc(Str("c"), Id("e"))}, true, nil, false), Expr(Dot(This(), "g"))},
+		// 12 observes what an interrupted run (SpinPool) left behind: globals, the object that was the binding object of a
+		// `with`, and that neither the with-object's property nor the function's locals are visible from global code
+		{hc(numOr0("s1"), Cond(Bin("===", Un("typeof", Id("o2")), Str("object")), Dot(Id("o2"), "x"), Str("none")), Un("typeof", Id("x")), Un("typeof", Id("a"))),
+			Label("L", For(nil, nil, nil, Block(Break("L")))), Expr(Un("typeof", Id("spin")))},
+		// 13 recursion around a stack depth limit configured from Go (vm.SetStackDepthLimit): how deep it got is logged,
+		// the RangeError is caught by the script, a second, shallow recursion follows
+		{FDecl("rec", []string{"d"}, hc(Id("d")), Return(Cond(Bin(">", Id("d"), Num(0)), Bin("+", Call(Id("rec"), Bin("-", Id("d"), Num(1))), Num(1)), Num(0)))),
+			Try([]N{hc(Str("r"), Call(Id("rec"), Num(3)))}, "e", []N{hc(Str("c"), Bin("instanceof", Id("e"), Id("RangeError")))}, true, nil, false),
+			Expr(Call(Id("rec"), Num(1)))},
 	}
 }
+
+// wait is the effect-free delay placed behind every host call of a SpinPool program: a call of w() runs a few loop
+// iterations on locals that die with the call, so WHERE inside it a pending interrupt is delivered cannot be observed.
+func wait() N { return Expr(Call(Id("w"))) }
+
+func declW() N {
+	return FDecl("w", nil, For(Var("i", Num(0)), Bin("<", Id("i"), Num(3)), Upd("++", false, Id("i")), Block()))
+}
+
+// SpinPool holds the programs run by the action `interrupt`: an interrupt function is SENT on the runtime's Interrupt
+// channel by the host function H during its k-th call and delivered at the interpreter's next polling point.  Every
+// call of H is followed by wait(), so the state the unwound run leaves behind does not depend on the exact placement
+// of the polling points (only on there being one before the script makes further progress).  SpinCalls[i] is the
+// number of H calls of program i in an undisturbed run (k ranges over 1..SpinCalls[i]).
+func SpinPool() [][]N {
+	inc := func(n string, d int) N { return Expr(Asg("=", Id(n), Bin("+", numOr0(n), Num(d)))) }
+	xinc := func(d int) N { return Expr(Asg("=", Id("x"), Bin("+", Id("x"), Num(d)))) }
+	return [][]N{
+		// 1 global code: two phases, each an effect, a host call and the delay
+		{declW(), Var("s1", nil), inc("s1", 1), hc(Id("s1")), wait(), inc("s1", 10), hc(Id("s1")), wait(), inc("s1", 100)},
+		// 2 nested contexts: a function run by a built-in (Function.prototype.apply) calls a function whose body is with { label: for { try { .. getter .. } finally } }
+		{declW(),
+			Var("o2", WithAccessor(Obj("x", Num(1)), "get", "g", Fn("", nil, Expr(Asg("=", Dot(This(), "x"), Bin("+", Dot(This(), "x"), Num(1)))), hc(Str("g"), Dot(This(), "x")), wait(), Return(Num(5))))),
+			FDecl("spin", []string{"a"},
+				With(Id("o2"), Label("L", For(nil, nil, nil, Block(
+					Try([]N{xinc(10), hc(Str("t"), Id("x")), wait(), Expr(Id("g")), Break("L")}, "", nil, false,
+						[]N{xinc(100), hc(Str("f"), Id("x")), wait()}, true))))),
+				Return(Num(7))),
+			Expr(Call(Dot(Fn("", []string{"e"}, Expr(Call(Id("spin"), Id("e")))), "apply"), Null(), Arr(Num(1)))),
+			Expr(Asg("=", Dot(Id("o2"), "x"), Bin("+", Dot(Id("o2"), "x"), Num(1000))))},
+	}
+}
+
+// SpinCalls: host calls of each SpinPool program in an undisturbed run.
+var SpinCalls = []int{2, 3}
+
